@@ -14,8 +14,10 @@ frozen type table) compared with the parsed XForm:
 """
 from __future__ import annotations
 
+import re
+
 from .. import common, drive, gen, refmodel, xf
-from ..model import Row
+from ..model import Form, Row
 from ..refmodel import ANY, ANYATTRS
 
 PROP = "C04"
@@ -67,7 +69,7 @@ def make_form(rng, i):
             place(Row("q", t, f"cv{i}_{j}", cells))
     k = rng.randrange(8)
     if k == 0:  # every type at least sometimes
-        for t in rng.sample(ALL_TYPES, 4):
+        for t in rng.sample(sorted(set(ALL_TYPES)), 4):
             cells = {} if t in gen.HIDDEN_TYPES + gen.META_TYPES + ["start-geopoint", "background-audio", "xml-external", "csv-external", "simserial", "subscriberid"] else {"label": f"lbl {t}"}
             if t == "calculate":
                 cells["calculation"] = "1 + 1"
@@ -76,7 +78,10 @@ def make_form(rng, i):
         for j in range(rng.randint(1, 3)):
             place(Row("q", "text", f"dis{i}_{j}", {"label": "off", "disabled": rng.choice(["yes", "true", "TRUE"])}))
         place(Row("q", "text", f"en{i}", {"label": "on", "disabled": rng.choice(["no", "false"])}))
-        f.survey.insert(rng.randint(0, len(f.survey)), Row("raw", None, None, {"hint": "just a comment"}))
+        # comment rows: no type, no name, no label - whatever else the author scribbled into the row's other cells
+        for _ in range(rng.randint(1, 2)):
+            col = rng.choice(["hint", "parameters", "appearance", "relevant", "constraint", "default", "choice_filter", "repeat_count", "calculation", "trigger"])
+            f.survey.insert(rng.randint(0, len(f.survey)), Row("raw", None, None, {col: rng.choice(["just a comment", "TODO: ask the team", "section 2 starts here", "x = y = z"])}))
     elif k == 2:  # table-list
         ln = next(iter(f.choices))
         sk = rng.choice(["group", "group", "repeat"])  # table-list is honoured on repeats too
@@ -190,6 +195,11 @@ def check(ctx, form, sig, sample=False, fmt="dict", sheets=None):
         ctx.ctr("rejected")
         if not o.exc_is_pyxform:
             ctx.ctr("internal_exception_seen(C17's business)")
+        else:
+            # every form of this generator is valid by construction: a refusal means that some row (a comment row, a disabled row, a generated
+            # helper) was not mapped the way the statement says - there is no instance and no body to compare at all
+            ctx.case(sig=sig + "|refused")
+            ctx.viol("valid-form-refused:" + "-".join(re.sub(r"\[row : \d+\]|'[^']*'|\d+", "", o.exc_msg or "").split()[:6]), f"{o.brief()[:300]}", common.witness(form))
         return
     try:
         p = xf.Parsed(o.xform)
@@ -242,7 +252,56 @@ def check(ctx, form, sig, sample=False, fmt="dict", sheets=None):
         ctx.sample({"form_md": common.sheets_to_md(form.to_sheets())[:1500], "expected_instance": str(exp)[:600], "observed": "instance, templates and body as expected"})
 
 
+LEGACY_TYPE_PAIRS = [("select one from l1", "select_one l1"), ("select1 l1", "select_one l1"), ("select all that apply from l1", "select_multiple l1"), 
+                     ("select one from file f.csv", "select_one_from_file f.csv"), ("select multiple from file f.csv", "select_multiple_from_file f.csv"),
+                     ("select_multiple_from_file f.xml", "select multiple from file f.xml"), 
+                     ("string", "text"), ("int", "integer"), ("gps", "geopoint"), ("photo", "image"), ("add date prompt", "date"), ("q geotrace", "geotrace"), ("add note prompt", "note"),
+                     ("select one from l1 or_other", "select_one l1 or specify other"), ("begin_group", "begin group"), ("begin looped group", "begin repeat")]
+
+
+def legacy_type_pairs(ctx):
+    """Every spelling of a question type that the type dictionary knows gives the row the control element, media type and bind type of the type."""
+    for k, (a_, b_) in enumerate(LEGACY_TYPE_PAIRS):
+        for pos in ("top", "group", "repeat"):
+            if not ctx.mine(k * 3 + ("top", "group", "repeat").index(pos)):
+                continue
+            outs = []
+            for t in (a_, b_):
+                cells = {"label": "L"}
+                if "external" in t:
+                    cells["choice_filter"] = "name = ${src}"
+                if t.startswith("begin"):
+                    row = Row("group" if "group" in t and "looped" not in t else "repeat", t, "tgt", cells, [Row("q", "text", "inner", {"label": "I"})])
+                    row.meta["end_type"] = {"begin_group": "end_group", "begin group": "end group", "begin looped group": "end looped group", "begin repeat": "end repeat"}[t]
+                else:
+                    row = Row("q", t, "tgt", cells)
+                wrapped = row if pos == "top" else Row(pos, f"begin {pos}", "wrap", {"label": "W"}, [row])
+                f = Form()
+                f.survey = [Row("q", "text", "src", {"label": "S"}), wrapped]
+                f.choices = {"l1": [{"name": "a", "label": "A"}, {"name": "b", "label": "B"}]}
+                f.external_choices = [{"list_name": "l1", "name": "x", "label": "X"}] if "external" in t else []
+                o = drive.convert_form(f)
+                if not o.ok:
+                    outs.append(("refused", o.brief()[:120]))
+                    continue
+                p = xf.Parsed(o.xform)
+
+                def flat(cs, acc):
+                    for q_, ref, attrs, el, kids in cs:
+                        acc.append((q_, ref, tuple(sorted((a, v) for a, v in attrs.items() if a in ("mediatype", "appearance", "query")))))
+                        flat(kids, acc)
+                    return acc
+                binds = sorted((b.get("nodeset"), b.get("type")) for b in p.binds())
+                outs.append(("ok", tuple(flat(p.controls(), [])), tuple(binds)))
+            ctx.ctr("legacy_type_pairs")
+            ctx.case(sig=f"legacy-type|{a_}|{pos}")
+            if outs[0] != outs[1]:
+                what = "outcome" if outs[0][0] != outs[1][0] else ("controls" if outs[0][1] != outs[1][1] else "bind types")
+                ctx.viol(f"type-spelling:{what}-differ:{b_.split()[0]}", f"type {a_!r} at {pos}: {str(outs[0])[:300]}; its other spelling {b_!r}: {str(outs[1])[:300]}", {"klass": "legacy-type", "a": a_, "b": b_, "pos": pos})
+
+
 def run_shard(ctx):
+    legacy_type_pairs(ctx)
     pl = plan(ctx.tier, ctx.seed)
     for i in range(pl["n"]):
         if not ctx.mine(i):
@@ -273,5 +332,8 @@ def run_shard(ctx):
 
 def replay(w):
     def chk(ctx, wit):
+        if wit.get("klass") == "legacy-type":
+            legacy_type_pairs(ctx)
+            return
         check(ctx, common.form_from_witness(wit), "replay")
     return common.replay_with(PROP, w, chk)
